@@ -1471,6 +1471,73 @@ pub fn c10_fixed_message_after_application_answers(rec: &mut Rec, rng: &mut Rng)
     sim.w.teardown();
 }
 
+/// a server in a process whose descriptor 0 is free (a daemon started with stdin closed): the first accepted connection
+/// gets the NUMBER 0. It is a connection like any other — served, and released when its client leaves.
+pub fn c10_connection_on_descriptor_zero(rec: &mut Rec, rng: &mut Rng, with_kill: bool) {
+    rec.case("descriptor-zero");
+    rec.nontrivial();
+    // SAFETY: descriptor 0 of the harness process is not used by anything (stdin is never read)
+    unsafe {
+        libc::close(0);
+        crate::srv::WANT_ZERO = true;
+    }
+    let mut cfg = Cfg::base("C10");
+    cfg.max_clients = 4;
+    cfg.with_kill = with_kill;
+    let mut sim = Sim::new(rec, cfg);
+    // (the first client is accepted before anything else is opened: the free number 0 goes to the server's accept)
+    let a = sim.connect(rec);
+    sim.poll(rec);
+    sim.poll(rec);
+    let b = sim.connect(rec);
+    for _ in 0..3 {
+        sim.poll(rec);
+    }
+    if sim.w.clients[a].srv_fd == Some(0) {
+        rec.count("c10:server-side-descriptor-0");
+    }
+    for i in [a, b] {
+        sim.send_next(rec, rng, i);
+        while !sim.plans[i].outq.is_empty() {
+            sim.send_next(rec, rng, i);
+        }
+    }
+    for _ in 0..3 {
+        sim.poll(rec);
+    }
+    while !sim.w.held.is_empty() {
+        sim.respond(rec, rng, 0);
+        sim.poll(rec);
+    }
+    sim.w.client_read(rec, a);
+    sim.w.close(rec, a);
+    for _ in 0..3 {
+        sim.poll(rec);
+    }
+    let conns = sim.w.server_fds().len().saturating_sub(2 + if sim.w.kill_fd.is_some() { 1 } else { 0 });
+    if conns != 1 {
+        rec.oracle_fail("C10", &format!("the client whose connection had the descriptor number 0 left, everything answered: the server holds {} connections, expected 1", conns), &sim.w.log);
+    }
+    // the other client is still served
+    sim.send_next(rec, rng, b);
+    while !sim.plans[b].outq.is_empty() {
+        sim.send_next(rec, rng, b);
+    }
+    for _ in 0..3 {
+        sim.poll(rec);
+    }
+    sim.settle(rec, rng);
+    common_checks(rec, &mut sim, "C10");
+    check_yield_once(rec, &sim);
+    sim.w.teardown();
+    // give the process its descriptor 0 back
+    if let Ok(f) = std::fs::File::open("/dev/null") {
+        if std::os::unix::io::AsRawFd::as_raw_fd(&f) == 0 {
+            std::mem::forget(f);
+        }
+    }
+}
+
 /// at capacity, several clients are already waiting in the listener's backlog when a client with an unanswered
 /// request leaves; the application answers between two polls. Each waiting client must end up either refused with
 /// the complete 503 message or accepted and served — never cut off with nothing (the batch of one poll can hold the
@@ -1546,6 +1613,9 @@ pub fn c10(rec: &mut Rec, rng: &mut Rng, thorough: bool) {
     }
     c10_close_and_request_in_one_batch(rec, rng);
     c10_fixed_message_after_application_answers(rec, rng);
+    for with_kill in [false, true] {
+        c10_connection_on_descriptor_zero(rec, rng, with_kill);
+    }
     for waiting in 1..=3 {
         for before in [false, true] {
             for leave in 0..(if thorough { 3 } else { 1 }) {
